@@ -416,7 +416,7 @@ const c07whenBody = `
   container st { config false; leaf cnt { type int32; } container more { %s leaf mc { type int32; default 1; } leaf m1 { type string; } } }
 `
 
-var c07whenConds = []interface{}{`when "seen = 5";`, `when "mode = 'auto'";`, `when "amode = 'auto'";`, `when "dd = 1";`, `when "oper = 'up'";`, `when "on = 'true' and lim = 3";`,
+var c07whenConds = []interface{}{`when "seen = 5";`, `when "mode = 'auto'";`, `when "amode = 'auto'";`, `when "dd = 1";`, `when "oper = 'up'";`, `when "on = 'true'";`,
 	`when "st > 0";`, `when "kind = 'std'";`, `when "ek = 'std'";`, `when "mc > 0";`}
 
 const c07whenData = `{"seen":5,"name":"n","tail":"t","tail2":"t2","auto":{"a1":"p","a2":7,"deep":{"dd":1,"d1":"q"}},"live":{"oper":"up","l1":"r","l2":"s"},
